@@ -285,6 +285,10 @@ func seqObs(o *Obs, s *fileseq.FileSequence, qf, qi []int) {
 	}
 	o.Add("i0", hx(s.Index(0)))
 	// paths are a function of the sequence's own components: changing a copy changes nothing here
+	// a frame of a type the method rejects leaves nothing behind either
+	_, _ = s.Frame(3.5)
+	_, _ = s.Frame(nil)
+	_, _ = s.Frame(int64(7))
 	if c := s.Copy(); c != nil {
 		c.SetDirname("/zz")
 		c.SetBasename("q")
